@@ -17,6 +17,8 @@ CompiledSimulation}:
      raised at the first cycle the wire is 0 and not before;
   T14 the three copies of step_multiple normalise to one AST (and to the frozen text the
      Coq model was written against).
+  T   translator: Gen/InputGuards.v (the three guards) and Gen/StepOrder.v (the event order of one
+     step() of each simulator) are regenerated from the current source on every run.
 impl vs specification -> viol(ctx, channel-specific signature);
 impl vs Coq model    -> ctx.model_mismatch."""
 import hashlib
@@ -62,8 +64,13 @@ ASSUMPTIONS = [
 ]
 TRUSTED = [
     'Sim/TraceBase.v reject_spec (reject iff not 0 <= v < 2^w), render/parse (radix-b numerals, lower-case digits)',
-    'Sim/Trace.v: hand model of TraceStorage/add_step, sim_step (validate, trace, then check_rtl_assertions), '
-    'step_multiple loop and report order; IO/Vcd.v: hand model of print_trace / print_vcd text layout',
+    'the ORDER of the events of one step() (validate, compute, publish, commit, trace, check_rtl_assertions) is no '
+    'longer hand-modelled: Gen/StepOrder.v is regenerated from Simulation.step / FastSimulation.step / '
+    'CompiledSimulation.step+run and C15_step_order_simulation/_fast/_compiled prove the generated lists mean '
+    'exactly sim_step; trusted instead: the fail-closed statement classification in py/genfrag_C15.py '
+    '(_classify) and the meaning Sim/Trace.v exec_events gives to each event',
+    'Sim/Trace.v: hand model of TraceStorage/add_step, of the step_multiple loop (frozen against the source text, '
+    'gate T14) and of the report order; IO/Vcd.v: hand model of print_trace / print_vcd text layout',
     'py/checks/C15.py independent parsers of VCD / print_trace / step_multiple report and the natural sort key',
 ]
 
